@@ -13,4 +13,10 @@ CLAIMED = {
   "text": "spec/graph/Traversal.tla models graph/traversal.go at the grain of its critical sections (main, coordinator, one worker per vertex, errgroup slots, buffered channel). TLC checks once-each, deps-first, bound, return-after-all, result, roots closure, deadlock freedom (and liveness in thorough) over every DAG on <=3 nodes x direction x limit x roots x failing visitors (N=4 partially in thorough). The code is bound to the model both ways: TLC-simulated behaviours are merged into a prefix tree and walked on the real goroutines by a gate scheduler (yield hooks, guard verif), TLC's BoundAlways counterexample is replayed on the real code, and executions recorded under seeded random/biased schedules on DAGs up to 5 (7) nodes are validated by TLC against Trace_Traversal, which re-uses the spec's actions. Cyclic graphs: Cycle.tla enumerates all digraphs <=3 (4) nodes. Verdicts come from monitors on the real visitor callbacks.",
   "note": "Exhaustive only for the stated small constants; beyond them schedules are sampled (seeded). Trusts TLC, the Go runtime's run-queue order under GOMAXPROCS(1) for quiescence (cross-checked against runtime.Stack), and the yield hooks being placed at the critical sections (a corrupted trace is shown to be rejected on every run).",
  },
+ "C19": {
+  "level": "model_checking",
+  "technique": "TLA+ specs of the fan-out protocol and of shared package state model-checked by TLC; every TLC-enumerated completion order / workload executed on the real code under the Go race detector and compared with sequential results",
+  "text": "spec/graph/Fanout.tla models WithServicesTransform (main, collector, one worker per service, buffered channel, errgroup cancellation, non-atomic access brackets on the shared Services field); TLC checks exact results, first-error propagation, joining, absence of overlapping conflicting accesses, deadlock freedom and termination for 0..3 (4) services and every failing subset. Every completion order x failing subset for 0..4 (5; 6 sampled) services is then forced on the real code by holding each callback at a gate, in a -race build. spec/graph/Traversal.tla (C13) covers the traversal; its gate-scheduled executions are repeated under -race with per-service result checks. spec/graph/SharedState.tla takes the inventory of package-level variables written at run time (extracted from /repo's source with go/parser, with a guarded-by-lock flag) and checks that concurrent loads cannot overlap on them and stay independent; its workloads (which loads carry `version:` etc.) are run from 2..8 (16) goroutines under -race and every concurrent result is compared with the same load run alone.",
+  "note": "Data-race freedom itself is decided by the Go race detector on the executions driven (sampling of real schedules beyond the gate-controlled ones); TLC decides the protocol-level claims and predicts which variables can race. Each load gets its own copy of the environment map (equal inputs, not shared mutable arguments).",
+ },
 }
